@@ -25,6 +25,12 @@ def hw(trials, first=0, flavor="hooks"):
     return Job(flavor, "h_waiter", ["--trials=%d" % trials, "--first=%d" % first], timeout=300, tag="h_waiter:%s" % flavor)
 
 
+def mqcf(trials, first=0, flavor="hooks", extra=(), timeout=300):
+    """main queue drained the CoreFoundation way: eventfd wake-ups + _dispatch_main_queue_callback_4CF on the bound main thread"""
+    return Job(flavor, "h_mainq", ["--mode=cf", "--trials=%d" % trials, "--first=%d" % first] + list(extra), timeout=timeout,
+               tag="h_mainq:cf" + ("" if flavor == "hooks" else ":" + flavor) + (":sig" if extra else ""))
+
+
 def C01(tier):
     m = 1 if tier == "quick" else 12
     jobs = []
@@ -42,6 +48,8 @@ def C01(tier):
     # legacy queues whose target queue is changed (dispatch_set_target_queue) while they are in use
     jobs += spread(hq, "retarget", 16 * m, 2) + [hq("retarget", 6 * m, first=100, ncpu=4), hq("retarget", 5 * m, first=200, flavor="asan", scale=40, timeout=600)]
     jobs += [hj("h_suspend", 16 * min(m, 2), first=0, mode="pbar")]
+    # the thread-bound main queue drained the CoreFoundation way: nothing but the eventfd wake-up makes the main thread drain
+    jobs += [mqcf(2 * m, 600), mqcf(2 * m, 700, extra=["--sigstorm=2000"])]
     jobs += [hq("mixed", 6 * m, first=3000, extra=["--sigstorm=2000"]), hq("pingpong", 6 * m, first=3100, extra=["--sigstorm=2000"]), hq("hier", 6 * m, first=3200, extra=["--sigstorm=2000"])]
     if tier == "thorough":
         jobs += [hq("default", 10 * m, first=2000, flavor="dbg", scale=60, timeout=900)]
@@ -58,12 +66,14 @@ def C01(tier):
         "starve_trials": 4,
         "waiter_schedule_reached": 48,
         "retargets_while_in_use": 8000,
+        "mainq_cf_items": 10000,
+        "mainq_cf_wakeups": 200,
     }
     rule = ("one case = one trial: a drawn queue graph (serial/concurrent/global/workloop queues, target chains to depth 4), "
             "workload shape (pingpong/flood/mixed/chain/gate/starve), 2-12 foreign client threads, a perturbation profile at the "
             "library's atomics and a CPU-affinity mask (pool size); non-trivial = consecutive items of one domain ran on different "
             "threads (cross-thread hand-off observed); distinct = distinct (graph, shape, profile kind, set of library atomic "
-            "sites reached, bucketed overlap/hand-off counts) signatures; additional job classes: legacy queues whose target queue is changed (custom, global, default, ephemeral, workloop targets), suspended and resumed by other threads while clients use them; directed failpoint schedules (redirected waiter: h_waiter; pending barrier + suspend: h_suspend pbar); trials under a signal storm (EINTR in every blocking call); ASan with stack-use-after-return detection")
+            "sites reached, bucketed overlap/hand-off counts) signatures; additional job classes: legacy queues whose target queue is changed (custom, global, default, ephemeral, workloop targets), suspended and resumed by other threads while clients use them; directed failpoint schedules (redirected waiter: h_waiter; pending barrier + suspend: h_suspend pbar); trials under a signal storm (EINTR in every blocking call); the thread-bound main queue drained only by eventfd wake-ups + _dispatch_main_queue_callback_4CF (h_mainq --mode=cf); ASan with stack-use-after-return detection")
     return jobs, floors, rule
 
 
@@ -80,6 +90,8 @@ def C02(tier):
     # serial queues inside target-queue hierarchies (sync / async_and_wait recursing through levels)
     jobs += spread(hq, "hier", 16 * m, 2)
     jobs += [Job("hooks", "h_mainq", ["--trials=%d" % (2 * m)], timeout=300, tag="h_mainq")]
+    jobs += [mqcf(2 * m, 200), mqcf(2 * m, 300, extra=["--sigstorm=2000"]), mqcf(m, 400, flavor="asan", timeout=600),
+             mqcf(m, 500, flavor="tsan", extra=["--scale=25", "--perturb=uniform"], timeout=900)]
     jobs += [hq("serial", 6 * m, first=900, flavor="tsan", scale=25, timeout=900, perturb="uniform"),
              hq("pingpong", 4 * m, first=950, flavor="tsan", scale=25, timeout=900, perturb="uniform")]
     # ASan with stack-use-after-return detection: sync contexts live on the waiters' stacks
@@ -96,12 +108,14 @@ def C02(tier):
         "site:_dispatch_queue_try_acquire_barrier_sync_and_suspend:3": 1000,  # sync fast path attempted
         "site:_dispatch_lane_drain_barrier_waiter:3": 1000,
         "mainq_items": 10000,
+        "mainq_cf_items": 10000,
+        "mainq_cf_wakeups": 200,
         "window3_schedule_reached": 16,
     }
     rule = ("one case = one trial of N client threads using every submission API (async/sync/barrier_*/async_and_wait, block and "
             "_f forms) on 1-3 serial queues (plus the main queue in h_mainq) under a drawn perturbation profile and affinity mask; "
             "oracle: interval-overlap + real-time FIFO over call/return/start/end stamps, a plain lost-update counter, and TSan on "
-            "plain per-queue memory; non-trivial = items of a queue ran on different threads; distinct = distinct trial signatures; plus serial legacy queues retargeted while in use and serial / concurrent queues over the main queue")
+            "plain per-queue memory; non-trivial = items of a queue ran on different threads; distinct = distinct trial signatures; plus serial legacy queues retargeted while in use, serial / concurrent queues over the main queue, and the thread-bound main queue drained the CoreFoundation way (eventfd wake-ups + _dispatch_main_queue_callback_4CF; a lost wake-up strands items)")
     return jobs, floors, rule
 
 
@@ -113,7 +127,7 @@ def C03(tier):
     jobs += spread(hq, "wl", 24 * m, 3)
     jobs += [hq("gate", 30 * m, first=0), hq("gate", 20 * m, first=500, ncpu=2)]
     # hierarchies whose bottom is the main queue (serial and concurrent queues over it)
-    jobs += [Job("hooks", "h_mainq", ["--trials=%d" % (2 * m), "--first=50"], timeout=300, tag="h_mainq")]
+    jobs += [Job("hooks", "h_mainq", ["--trials=%d" % (2 * m), "--first=50"], timeout=300, tag="h_mainq"), mqcf(2 * m, 250)]
     jobs += [hq("hier", 6 * m, first=900, flavor="tsan", scale=25, timeout=900, perturb="uniform"),
              hq("wl", 4 * m, first=950, flavor="tsan", scale=25, timeout=900, perturb="uniform")]
     # ASan with stack-use-after-return detection: waiters redirected down the hierarchy live on foreign stacks
@@ -131,6 +145,7 @@ def C03(tier):
         "site:_dispatch_workloop_invoke2:0": 1,
         "gate_trials": 20,
         "mainq_items": 5000,
+        "mainq_cf_items": 5000,
         "waiter_schedule_reached": 48,
     }
     rule = ("one case = one trial over a random target-queue hierarchy (depth<=4, fan-in, serial and concurrent inner queues, "
@@ -518,8 +533,11 @@ def C17(tier):
              hj("h_timer", 2 * m, first=5600, flavor="asan", scale=50, timeout=600)]
     jobs += [hw(32 * min(m, 2)), hw(32 * min(m, 2), flavor="asan")]
     jobs += [hq("retarget", 5 * m, first=600, flavor="asan", scale=40, timeout=600)]
+    # data objects handed to writes that fail (unusable descriptors): destructors exactly once, nothing leaked, no use after free
+    jobs += [Job("asan", "h_iobad", ["--trials=%d" % (60 * m), "--first=7000"], timeout=600, tag="h_iobad:asan:c17"),
+             Job("hooks", "h_iobad", ["--trials=%d" % (60 * m), "--first=7500"], timeout=600, tag="h_iobad:hooks:c17")]
     for j in jobs:
-        if j.flavor == "asan" and j.harness in ("h_life", "h_data", "h_queue"):   # the other harnesses keep per-case records alive on purpose
+        if j.flavor == "asan" and j.harness in ("h_life", "h_data", "h_queue", "h_iobad"):   # the other harnesses keep per-case records alive on purpose
             j.env.update({"ASAN_OPTIONS": "abort_on_error=1:detect_leaks=1:halt_on_error=1:allocator_may_return_null=1:detect_stack_use_after_return=1", "LSAN_OPTIONS": "exitcode=23:report_objects=0"})
     if tier == "thorough":
         jobs += [hj("h_life", 20 * m, first=9000, flavor="dbg", timeout=1800)]
@@ -533,6 +551,7 @@ def C17(tier):
         "site:_os_object_release_internal_n_inline:4": 100000,
         "site:_dispatch_lane_class_dispose:0": 10000,
         "waiter_schedule_reached": 48,
+        "unusable_descriptor_data_destructors": 100,
     }
     rule = ("one case = one lifetime scenario: the last application reference to a queue / source / group / workloop is dropped right "
             "after submitting, from inside the object's own item, while a child queue or a source still targets it, by another thread "
@@ -541,7 +560,7 @@ def C17(tier):
             "AddressSanitizer + LeakSanitizer (asan flavor) for use-after-free / double free / leaks, finalizer exactly once, on the "
             "target queue, with the context current at release, not before the object's items finished, child before parent, "
             "everything finalised at quiescence; trial line = batch of scenarios; the same ASan build also runs the queue-graph, "
-            "source-cancellation, block-object, data-object and timer harnesses; plus retargeted / ephemeral target queues and the redirected-waiter schedule under ASan+LSan")
+            "source-cancellation, block-object, data-object and timer harnesses; plus retargeted / ephemeral target queues and the redirected-waiter schedule under ASan+LSan, and the data objects of writes on unusable descriptors (h_iobad: destructor counts, ASan+LSan)")
     return jobs, floors, rule
 
 
